@@ -308,6 +308,33 @@ def _pattern_text_edits(fn) -> T.Optional[T.List[T.Tuple[ast.Call, str]]]:
     return [(c, w) for c, w in out if not is_test_only(c)]
 
 
+def ini_verbatim_rule(ctx, rule: str) -> None:
+    """Values of a setup.cfg reach bumpver as written: no %-interpolation, no inline-comment stripping."""
+    prog = ctx.prog
+    cp = prog.klass("config._ConfigParser")
+    raw = any(b.endswith("RawConfigParser") for b in cp.bases)
+    used = [c for c in ast.walk(prog.function("config._parse_cfg").node) if isinstance(c, ast.Call) and unparse(c.func) in ("_ConfigParser", "configparser.RawConfigParser", "configparser.ConfigParser")]
+    ctx.require(len(used) == 1, "_parse_cfg: parser construction not found")
+    no_interp = any(kw.arg == "interpolation" and isinstance(kw.value, ast.Constant) and kw.value.value is None for kw in used[0].keywords)
+    is_raw = (unparse(used[0].func) == "_ConfigParser" and raw) or unparse(used[0].func).endswith("RawConfigParser")
+    ctx.check(rule, is_raw or no_interp, "INI reader is a RawConfigParser (or interpolation=None): '%' in a value is literal text",
+              "config._ConfigParser enables %-interpolation: '%' in a setup.cfg value (search pattern, message) is not taken literally",
+              f"bases {cp.bases}; a pattern such as `%define ver {{version}}` raises InterpolationSyntaxError, `100%% {{version}}` loses a '%'", loc="src/bumpver/config.py",
+              witness={"setup.cfg pattern": "progress 100%% v{version}"})
+    cutters = [kw for kw in used[0].keywords if kw.arg in ("inline_comment_prefixes", "comment_prefixes", "delimiters", "strict", "empty_lines_in_values") ]
+    bad_kw = [kw for kw in cutters if kw.arg == "inline_comment_prefixes" and not (isinstance(kw.value, ast.Constant) and kw.value.value is None)
+              or kw.arg == "empty_lines_in_values"]
+    init = cp.methods.get("__init__")
+    if init is not None:
+        for c in ast.walk(init.node):
+            if isinstance(c, ast.Call):
+                bad_kw += [kw for kw in c.keywords if kw.arg == "inline_comment_prefixes" and not (isinstance(kw.value, ast.Constant) and kw.value.value is None)]
+    ctx.check(rule, not bad_kw, "INI reader does not cut values at inline comment markers",
+              "config._parse_cfg: setup.cfg values are cut at inline comment markers",
+              f"`{unparse(bad_kw[0].value) if bad_kw else ''}`: every value - messages, search patterns - ends at the first ' #' / ' ;', while the same text in a TOML config is kept",
+              loc="src/bumpver/config.py", witness={"setup.cfg pattern": '__version__ = "{version}"  # managed by bumpver'})
+
+
 def run(ctx) -> None:
     prog = ctx.prog
     ctx.rule("R1", "every literal string (chars in 4 contexts, all pairs; thorough: triples) compiles to its own literal text")
@@ -440,16 +467,7 @@ def run(ctx) -> None:
                   f"v2version._format_segment: {src!r} is not rendered as {dst!r}", f"replacements: {reps}", loc=fs.loc())
 
     # ---------------------------------------------------------------- R6
-    cp = prog.klass("config._ConfigParser")
-    raw = any(b.endswith("RawConfigParser") for b in cp.bases)
-    used = [c for c in ast.walk(prog.function("config._parse_cfg").node) if isinstance(c, ast.Call) and unparse(c.func) in ("_ConfigParser", "configparser.RawConfigParser", "configparser.ConfigParser")]
-    ctx.require(len(used) == 1, "_parse_cfg: parser construction not found")
-    no_interp = any(kw.arg == "interpolation" and isinstance(kw.value, ast.Constant) and kw.value.value is None for kw in used[0].keywords)
-    is_raw = (unparse(used[0].func) == "_ConfigParser" and raw) or unparse(used[0].func).endswith("RawConfigParser")
-    ctx.check("R6", is_raw or no_interp, "INI reader is a RawConfigParser (or interpolation=None): '%' in a search pattern is literal text",
-              "config._ConfigParser enables %-interpolation: '%' in a setup.cfg search pattern is not matched literally",
-              f"bases {cp.bases}; a pattern such as `%define ver {{version}}` raises InterpolationSyntaxError, `100%% {{version}}` loses a '%'", loc="src/bumpver/config.py",
-              witness={"setup.cfg pattern": "progress 100%% v{version}"})
+    ini_verbatim_rule(ctx, "R6")
 
     # TOML: the strings of file_patterns are exact (the format has its own quoting), so nothing between toml.load and
     # the pattern compiler may edit them
